@@ -15,7 +15,7 @@ def tier(runs, budget_s, shrink_s=15, recheck=50, workers=16):
     return {"runs": runs, "budget_s": budget_s, "shrink_s": shrink_s, "recheck": recheck, "workers": workers}
 
 CHECKS = {}
-HOOK_COMMITS = ["3be429e", "7e2608d", "61c0b23", "eac9293"]
+HOOK_COMMITS = ["3be429e", "7e2608d", "61c0b23", "eac9293", "cfa1c30"]
 
 def check(pid, **kw):
     kw.setdefault("level", "exploration")
@@ -159,8 +159,8 @@ def hs_check(pid, **kw):
 hs_check("C05",
     pkg={"C05.hs": "handshake", "C05.mesh": "nebula"}, scenarios=["C05.hs", "C05.mesh"],
     technique="deterministic whole-overlay simulation with a certificate thief (an uncertified party presenting a node's certificate, seen on the wire, with a static key of its own) and with reloads that blocklist a peer while the handshake to it is in flight (scenario C05.mesh, real HandshakeManager certificate verifier); and deterministic simulation of concurrent IX sessions between real handshake.Machines with an attacker owning the network (drop/dup/reorder/truncate/flip/splice/replay, forged identities); every completion checked against simulator ground truth",
-    level_text="Seeded search over attacker-scheduled message histories: every Result a machine returns must report exactly the certificate its trust check accepted, whose key equals the Noise peer static, owned by an identity the reference trust table accepts at that time; an initiator may complete only on the unmodified reply of a responder that processed its unmodified first message (possession proof) and must report that responder's certificate; no machine completes twice. Responder-side completion on a replayed/forged first message carrying a valid certificate is allowed (IX semantics). Evidence, not proof.")
-hs_check("C06 C05.mesh (engine A, the C09 world): no node may install a tunnel from a handshake that presented another node's certificate with a foreign static key, whether or not it already holds a tunnel with the certificate's owner; a tunnel to a peer that appears on a node after a reload blocklisted that peer's certificate there is a violation (trust is evaluated when the peer's certificate is verified, not when the handshake was started).",
+    level_text="Seeded search over attacker-scheduled message histories: every Result a machine returns must report exactly the certificate its trust check accepted, whose key equals the Noise peer static, owned by an identity the reference trust table accepts at that time; an initiator may complete only on the unmodified reply of a responder that processed its unmodified first message (possession proof) and must report that responder's certificate; no machine completes twice. Responder-side completion on a replayed/forged first message carrying a valid certificate is allowed (IX semantics). Evidence, not proof. C05.mesh (engine A, the C09 world): no node may install a tunnel from a handshake that presented another node's certificate with a foreign static key, whether or not it already holds a tunnel with the certificate's owner; a tunnel to a peer that appears on a node after a reload blocklisted that peer's certificate there is a violation (trust is evaluated when the peer's certificate is verified, not when the handshake was started).")
+hs_check("C06",
     technique="deterministic simulation of interleaved IX sessions (all curve/cipher/version mixes, tape-chosen index allocators incl. equal and extreme values); agreement of keys, indexes and message count checked for every session completed at both ends",
     level_text="Seeded search over session interleavings: when both ends of one session complete, each side's sending key must decrypt only with the other side's receiving key (not with its own, not with any machine of another session), remote index = peer's local index in both directions, equal message count, non-zero local indexes. Evidence, not proof.")
 hs_check("C07",
